@@ -1858,6 +1858,22 @@ pub fn after_commit_processed(
     _desc: &CommitMessageDescription,
 ) -> VResult<()> {
     crate::c10::on_commit_processed(w, p, g, cid, _desc)?;
+    // what the library hands to the application about a commit can be serialised by it (C12)
+    if w.cfg.oracle("codec") {
+        use mls_rs::mls_rs_codec::{MlsEncode, MlsSize};
+        if let Ok(bytes) = _desc.mls_encode_to_vec() {
+            w.stats.check("commit-description-length-exact");
+            if _desc.mls_encoded_len() != bytes.len() {
+                return Err(Violation::new(
+                    &w.cfg.property,
+                    "round-trip",
+                    "reported-length-differs:commit_description".into(),
+                    format!("the description of commit {cid} reports an encoded length of {} bytes and writes {}", _desc.mls_encoded_len(), bytes.len()),
+                ));
+            }
+            on_wire(w, &bytes, "commit_description")?;
+        }
+    }
     // (a member that the commit removes does not enter the new epoch: its object simply stays behind)
     let entered = !matches!(_desc.effect, mls_rs::group::CommitEffect::Removed { .. });
     if w.cfg.oracle("pending-model") && entered {
